@@ -246,13 +246,17 @@ def _twin_sig(m):
         else:
             sig[j] = (ent, None, None)
     v = exe.verdict
-    sig['<run()>'] = (v[0], v[1] if v[0] == 'return' else type(v[1]).__name__, tend)
+    # which of several critical raisers tied at one instant wins is a matter of
+    # loop iterations (tie policy); the identity of the exception is judged by
+    # the propagation clauses, not by the twins
+    sig['<run()>'] = (v[0], v[1] if v[0] == 'return' else 'exception', tend)
     return sig
 
 
 def run_twin(prop, spec, loop_seed):
     out = Out('C10')
     spec = restrict_for_twin(copy.deepcopy(spec), random.Random(repr(loop_seed)))
+    spec.pop('history', None)        # histories name nested schedulers, which the flat twin does not have
     nested = [n for n, p, d in walk(spec) if is_sched(n) and p is not None]
     if not nested:
         out.count('trees without nested scheduler (skipped)')
